@@ -22,6 +22,7 @@ RULE = (
     "distinct = (case hash, iteration)."
 )
 RULE += " " + ('Also generated: runs on a sampler object that has already completed an unrelated run with another (ramped / scalar) target; another output namespace.')
+RULE += " " + ('One case in eight runs emcee_smc on the continuous problem of the run-based checks with a ramped or scalar target and a rate in {0.25, 0.5, 1, 2}.')
 ASSUMPTIONS = [
     "ESS(b) is monotone non-increasing in b, so the feasible set is an interval (used to state maximality at beta_t + tol only)",
     "reference ESS in float64 with relative slack 64*N*eps(width) + 64*eps*(max|incremental log w|+1); float32 populations have |log w| <= 10",
